@@ -156,6 +156,24 @@ def full_row_flags(tree):
             'info': {'_fetch_objects receiver': receivers[0], '_parse_row_ class with discriminator': else_v[0]}}
 
 
+def select_random_guard(tree):
+    """EntityMeta.select_random: the test of the `if` that sends the call to the ordinary (discriminator-filtered) `entity.select().random(limit)`
+    instead of the fast path that batch-loads random primary keys of the TABLE without a class filter"""
+    f = find_method(tree, 'EntityMeta', 'select_random')
+    table = {'issubclass(pk.py_type, int)': 'c.pkInt', 'entity._discriminator_ is not None': 'c.hasDiscr', 'entity._root_ is not entity': '(!c.isRoot)',
+             'entity._root_ is entity': 'c.isRoot', 'entity._subclasses_': 'c.hasSub', 'entity._pk_is_composite_': 'c.pkComposite'}
+    def tr(e):
+        if isinstance(e, ast.BoolOp): return '(' + (' && ' if isinstance(e.op, ast.And) else ' || ').join(tr(v) for v in e.values) + ')'
+        if isinstance(e, ast.UnaryOp) and isinstance(e.op, ast.Not): return '(!' + tr(e.operand) + ')'
+        src = ast.unparse(e)
+        if src in table: return table[src]
+        raise ValueError('select_random: the guard of the filtered path uses a condition the model does not know: %r' % src)
+    guards = [st.test for st in f.body if isinstance(st, ast.If) and len(st.body) == 1 and isinstance(st.body[0], ast.Return)
+              and ast.unparse(st.body[0].value) == 'entity.select().random(limit)' and '_discriminator_' in ast.unparse(st.test)]
+    if len(guards) != 1: raise ValueError('select_random: %d guards mentioning the discriminator lead to entity.select().random(limit) (1 expected)' % len(guards))
+    return ast.unparse(guards[0]), tr(guards[0])
+
+
 def regenerate_load_guards(repo, lean_dir):
     out_path = os.path.join(lean_dir, 'PonyVerif', 'Gen', 'LoadGuards.lean')
     info = {}
@@ -171,6 +189,12 @@ def regenerate_load_guards(repo, lean_dir):
             parts = [('(!%s)' % atoms_to_lean(t, table)) if neg else atoms_to_lean(t, table) for t, neg in chain]
             lines.append('/-- %s.%s: `%s` -/' % (cls, meth, ' ; '.join(info[name]).replace('-/', '- /')))
             lines.append('def %s (c : LoadCtx) : Bool := %s' % (name, ' && '.join(parts) if parts else 'true'))
+        sr_src, sr_lean = select_random_guard(tree)
+        info['select_random'] = sr_src
+        lines += ['/-- what EntityMeta.select_random tests before choosing its path -/', 'structure RandomCtx where',
+                  '  pkInt : Bool', '  pkComposite : Bool', '  hasDiscr : Bool', '  isRoot : Bool', '  hasSub : Bool',
+                  '/-- select_random: `%s` → the ordinary, discriminator-filtered `entity.select().random(limit)` -/' % sr_src.replace('-/', '- /'),
+                  'def selectRandomFilteredGuard (c : RandomCtx) : Bool := %s' % sr_lean]
         fr = full_row_flags(tree)
         info['full_row'] = fr['info']
         lines.append('/-- EntityMeta._fetch_objects: `%s._get_from_identity_map_(...)` -/' % fr['info']['_fetch_objects receiver'])
